@@ -632,11 +632,11 @@ def shapes(orders, dims):
             yield tuple(s)
 
 
-def pick_shapes(rng, tier, orders, dims=(1, 2, 3), full_to=3, sample=12):
+def pick_shapes(rng, tier, orders, dims=(1, 2, 3), full_to=3, sample=12, thorough_full_to=99):
     out = []
     for o in orders:
         allS = list(itertools.product(dims, repeat=o))
-        if o <= full_to or tier == "thorough":
+        if o <= full_to or (tier == "thorough" and o <= thorough_full_to):
             out += allS
         else:
             out += rng.sample(allS, min(sample, len(allS)))
@@ -676,11 +676,11 @@ def gen_valid(tier, rng):
             for wk in ("none", "ones", "signed"):
                 if not T and len(s) >= 3 and rng.random() < 0.5:
                     continue
-                if T and len(s) >= 4 and rng.random() < 0.5:   # round 8 (timing): every order-4 shape, about half of its rank x weights combinations
+                if T and len(s) >= 4 and rng.random() < 0.6:   # round 8 (timing): every order-4 shape, about 40% of its rank x weights combinations
                     continue
                 yield dict(kind="cp", w=weights(rng, wk, R), fs=[rint(rng, (n, R)) for n in s], wk=wk, negmodes=(len(s) <= 2 or rng.random() < 0.4))
             # masked route (entrywise 0/1 mask and a general integer mask)
-            if len(s) >= 1 and ((T and (len(s) < 4 or rng.random() < 0.5)) or (not T and rng.random() < 0.6)):
+            if len(s) >= 1 and ((T and (len(s) < 4 or rng.random() < 0.35)) or (not T and rng.random() < 0.6)):
                 wk = rng.choice(["none", "ones", "signed"])
                 mk = rint(rng, s, 0, 1, nonzero=False) if rng.random() < 0.7 else rint(rng, s, -1, 2, nonzero=False)
                 yield dict(kind="cp", w=weights(rng, wk, R), fs=[rint(rng, (n, R)) for n in s], mask=mk, wk=wk, mask_dtype=rng.choice(["float64", "int64"]))
@@ -700,7 +700,7 @@ def gen_valid(tier, rng):
                             f1[j, 0] += 1
                     yield dict(kind="cp", w=None, fs=[f1], mask=mk, wk="none", mask_dtype=mdt)
     # ---- Tucker
-    for s in pick_shapes(rng, tier, [1, 2, 3, 4], full_to=2, sample=14 if not T else 81):
+    for s in pick_shapes(rng, tier, [1, 2, 3, 4], full_to=2, sample=14 if not T else 54, thorough_full_to=3):
         for rep in range(2 if (not T or len(s) >= 4) else 3):   # (round 8, timing: two rank draws per order-4 shape in the thorough tier too)
             rk = tuple(rng.choice([1, 2, 3]) for _ in s)
             core = rint(rng, rk)
@@ -718,7 +718,7 @@ def gen_valid(tier, rng):
                 yield dict(kind="tucker", core=core, fs=fs, skip=rng.randrange(len(s)))
                 yield dict(kind="tucker", core=core, fs=[f.T.copy() for f in fs], tr=True, skip=(rng.randrange(len(s)) if rng.random() < 0.4 else None))
     # ---- TT / TR
-    for s in pick_shapes(rng, tier, [1, 2, 3, 4], full_to=2, sample=14 if not T else 81):
+    for s in pick_shapes(rng, tier, [1, 2, 3, 4], full_to=2, sample=14 if not T else 54, thorough_full_to=3):
         for rep in range(2 if (not T or len(s) >= 4) else 3):
             rk = [1] + [rng.choice([1, 2, 3]) for _ in range(len(s) - 1)] + [1]
             yield dict(kind="tt", cores=[rint(rng, (rk[i], n, rk[i + 1])) for i, n in enumerate(s)], negmodes=(rep == 0))
@@ -728,7 +728,7 @@ def gen_valid(tier, rng):
                 yield dict(kind="tr", cores=[rint(rng, (rk[i], n, rk[i + 1])) for i, n in enumerate(s)], negmodes=(rep == 0))
     # ---- TT-matrix
     for n in (1, 2, 3):
-        for rep in range((6 if n < 3 else 4) if not T else 25):
+        for rep in range((6 if n < 3 else 4) if not T else 18):
             ins = [rng.choice([1, 2, 3]) for _ in range(n)]; outs = [rng.choice([1, 2, 3]) for _ in range(n)]
             if n == 3 and not T:
                 ins = [rng.choice([1, 2]) for _ in range(n)]; outs = [rng.choice([1, 2]) for _ in range(n)]
@@ -748,7 +748,7 @@ def gen_valid(tier, rng):
     if T:
         # larger random decompositions (object histories for a third of them: the enumerated boxes above carry the wrapper coverage)
         nw = lambda: rng.random() < 0.67
-        for _ in range(200):
+        for _ in range(120):
             o = rng.randint(2, 5); s = [rng.randint(1, 4) for _ in range(o)]; R = rng.randint(1, 5)
             yield dict(kind="cp", w=weights(rng, rng.choice(["none", "ones", "signed"]), R), fs=[rint(rng, (n, R)) for n in s], no_wrapper=nw())
             rk = [1] + [rng.randint(1, 4) for _ in range(o - 1)] + [1]
@@ -790,7 +790,7 @@ def stored_arrays(d):
 
 def gen_dtype_variants(tier, rng):
     """mixed-dtype factor sets: an int64 0/1 indicator factor next to float32 / float64 arrays; one complex array among real ones"""
-    for _ in range(2 if tier == "quick" else 10):
+    for _ in range(2 if tier == "quick" else 8):
         for d in base_decomps(rng):
             slots = stored_arrays(d)
             # (a) real dtypes, at least two different ones, one integer indicator array
@@ -825,7 +825,7 @@ def gen_dtype_variants(tier, rng):
 
 def gen_malformed(tier, rng):
     """factor sets that are structurally invalid (plus a few degenerate-but-valid neighbours)"""
-    reps = 3 if tier == "quick" else 12
+    reps = 3 if tier == "quick" else 10
     V = [("validate",)]
     for _ in range(reps):
         # --- CP
@@ -1505,7 +1505,7 @@ def complex_cp_run(w, fs, chk=None, record=True):
 def complex_cp_cases(chk, start_id, rng, tier):
     out = []
     plan = [(1, 1, "complex")]   # the smallest witness first: order 1, rank 1
-    for _ in range(10 if tier == "quick" else 60):
+    for _ in range(10 if tier == "quick" else 40):
         plan.append((rng.randint(1, 3), rng.randint(1, 3), rng.choice(["none", "real", "complex", "complex"])))
     for order, R, wk in plan:
         s = [rng.randint(1, 3) for _ in range(order)]
@@ -1787,7 +1787,7 @@ def run(chk):
                        "(validate|.shape/.rank, to_tensor [masked], to_unfolded for every mode + one invalid mode (CP and half of the other decompositions of the enumerated boxes also the negative modes -1, -order and the invalid -(order+1)), to_vec, cp_norm / wrapper .norm(), to_matrix, slice(s)) under both tenalg backends "
                        "(the einsum TT-matrix route against its own model), "
                        "as tuple (one CViews case) and as wrapper-object HISTORY per backend (CObj cases run through the object model: construction, shuffled multi-step views with repeats, a shape-preserving __setitem__ phase after which the views must follow the new contents, for about half of the objects a second shape-preserving phase (weights set again / twice, factors before core, the same core index set twice then another), and a shape-changing one = the classified known-finding class); plus mixed-dtype variants (int64 indicator / float32 / float64, half-integer floats, one complex array); CP: all shapes of order 1-3 over {1,2,3} (+ sampled order 4; thorough: all) x rank {1,2,3} x "
-                       "weights {None, ones, signed non-unit} + masked (thorough, order 4: every shape with about half of the rank x weights combinations); Tucker/TT/TR: all shapes of order 1-2 + sampled order 3-4 (thorough: all) with random ranks in {1,2,3} incl. rank > dim, skip_factor, transpose_factors; "
+                       "weights {None, ones, signed non-unit} + masked (thorough, order 4: every shape with about 40% of the rank x weights combinations); Tucker/TT/TR: all shapes of order 1-2 + sampled order 3-4 (thorough: all of order 3, 54 of the 81 of order 4) with random ranks in {1,2,3} incl. rank > dim, skip_factor, transpose_factors; "
                        "TT-matrix with 1-3 cores; PARAFAC2 with uneven slices; plus a malformed stream (mismatched ranks, wrong boundary ranks, open rings, wrong ndim, non-orthonormal and dyadic sub-orthonormal projections (validator through the model at Q), wrong counts, 1-D factors, a non-square PARAFAC2 B that must be rejected late, "
                        "operands np.einsum can broadcast: size-1 core modes / one-column factors / inner rank r against 1 / open boundary ranks, a TT with first boundary rank r0 and fitting rank products) observed through EVERY view under BOTH backends: Ok-with-the-same-value / Err exactly as the model says, and any reconstruction returned for a set the validator rejects is a finding; "
                        "round 7: order-1 CP tensors with weights=None and a 0/1 (bool / int / float) or general integer mask on every run; tucker_to_tensor(modes=...) with repeated modes; PARAFAC2 with exactly one non-orthonormal projection at the first / middle / last position through every view; 0-order inputs (Python numbers) through the cp / tt functions; complex CP tensors with Gaussian-integer weights and factors (all views exactly, cp_norm exactly as its square); "
